@@ -498,7 +498,7 @@ func c18Bootstrap(c *mc.Check, maxSize int) {
 // ---- dates ----
 
 func c18Dates(c *mc.Check) {
-	f := c.Family("dates", "a lattice of time stamps (years 0001/1999/2000/9999, month/day/hour boundaries, fractions none/.5/.05/.000000001/.999999999, zones Z/+00:00/−07:00/+14:00, and the compact YYYYMMDDTHHMMSS form): equal instants ⇒ equal normalised strings; for all pairs, string order = time order; normalised strings parse back to the same instant; non-trivial = all pairs", nil)
+	f := c.Family("dates", "a lattice of time stamps (years 0001/1999/2000/9999, month/day/hour boundaries, fractions none/.5/.05/.000000001/.999999999 and the same with trailing zeros (.500000 .50 .000 .0 .050000000), zones Z/+00:00/−07:00/+14:00, and the compact YYYYMMDDTHHMMSS form): equal instants ⇒ equal normalised strings; for all pairs, string order = time order; normalised strings parse back to the same instant; non-trivial = all pairs", nil)
 	if c.Replaying() {
 		return
 	}
@@ -511,7 +511,8 @@ func c18Dates(c *mc.Check) {
 	for _, y := range []string{"0001", "1999", "2000", "2023", "9999"} {
 		for _, md := range []string{"01-01", "02-28", "12-31", "06-15"} {
 			for _, hm := range []string{"00:00:00", "23:59:59", "12:30:05"} {
-				for _, fr := range []string{"", ".5", ".05", ".000000001", ".999999999"} {
+				// other spellings of the same fractions (trailing zeros, a zero fraction) denote the same instants
+				for _, fr := range []string{"", ".5", ".05", ".000000001", ".999999999", ".500000", ".50", ".000", ".0", ".050000000"} {
 					for _, z := range []string{"Z", "+00:00", "-07:00", "+14:00"} {
 						stamps = append(stamps, stamp{in: y + "-" + md + "T" + hm + fr + z})
 					}
